@@ -103,6 +103,13 @@ CLAIMED = {
             "is fresh on every production; liveness: all conditions true implies membership in the ready set; negative witness for the unrepaired update_value. Tie: DAGs "
             "and signal loops with function/gate/interrupt producers and several waiters on both runners under random completion orders, event-order oracle.",
             BASE_NOTE, "DESIGN.md §7 C17"),
+    "C19": ("proof", "Lean 4 proof: executable type judgement <-> inductive rule system (nested inductive, functional induction) + correspondence on the type universe and on injected structural flaws",
+            "Kernel-checked: the executable compat (mirroring is_type_compatible case by case) holds iff the inductively defined rule system does, for type expressions of any "
+            "depth; reflexivity, Any is top, union-left = all members, union-right = some member, generic origin/arity/argument rule, Annotated transparency conditions, "
+            "concrete corollaries and quirk witnesses. Tie: blocks of ordered pairs of the closed type universe (3.8M pairs were compared exhaustively to depth 1 when the model "
+            "was built; every run re-checks depth 0 exhaustively and samples deeper) plus algebraic laws on the real function; valid generated graphs x one injected "
+            "structural flaw per class at a random position (also inside nested graphs) must be rejected with GraphConfigError while the original is accepted.",
+            BASE_NOTE + "TypeVar, forward references, Literal, Callable are outside the universe. The structural validator's Lean model is added when ready (then claimed in the same check).", "DESIGN.md §7 C19"),
 }
 
 NOT_YET = "not yet claimed: check under construction (see DESIGN.md section 7)"
